@@ -39,16 +39,19 @@ def gen_case(seed, tier, prop="C20"):
     if rng.random() < 0.3:
         n = rng.randint(3, 40 if big else 24)
         typed = rng.random() < 0.4
+        seq_ttl = rng.choice([None, None, 1, 2])
         ops = []
         for _ in range(n):
             r = rng.random()
-            if r < 0.9:
+            if seq_ttl is not None and r < 0.25:
+                ops.append(["sleep", rng.choice([0.25, 0.5, 1.0, 2.0])])
+            elif r < 0.9:
                 k = rng.choice(KEYS + ([1.0, 2.0] if typed else []))
                 ops.append(["call", k, rng.random() < 0.15, rng.random() < 0.15])   # key, fails, as keyword
             else:
                 ops.append(["clear"])
         return {"engine": "lru", "type": "seq", "maxsize": rng.choice([None, 0, 1, 2, 3, 128]), "typed": typed,
-                "always_checkpoint": rng.random() < 0.3, "ops": ops, "eager": rng.random() < 0.3,
+                "always_checkpoint": rng.random() < 0.3, "ops": ops, "eager": rng.random() < 0.3, "ttl": seq_ttl,
                 "sched_seed": rng.getrandbits(32)}
     ncallers = rng.randint(1, 5 if big else 4)
     fail_p = rng.choice([0, 0, 0.2, 0.4])
@@ -66,6 +69,44 @@ def gen_case(seed, tier, prop="C20"):
     return {"engine": "lru", "type": "conc", "maxsize": rng.choice([None, 0, 1, 1, 2, 3]), "typed": rng.random() < 0.3,
             "ttl": rng.choice([None, None, None, 1, 2]), "always_checkpoint": rng.random() < 0.3, "callers": callers,
             "script": script, "loop": loop, "sched_seed": rng.getrandbits(32)}
+
+
+class RefLRU:
+    """Reference for sequential histories with ttl: plain LRU over finished results; an expired result is
+    recomputed; the recomputed (or new) result is the most recently used one."""
+
+    def __init__(self, maxsize, typed, ttl, counter, plan, clock):
+        from collections import OrderedDict
+        self.d = OrderedDict()
+        self.maxsize, self.typed, self.ttl, self.counter, self.plan, self.clock = maxsize, typed, ttl, counter, plan, clock
+
+    def cache_clear(self):
+        self.d.clear()
+
+    def cache_info(self):
+        return None
+
+    def __call__(self, *args, **kw):
+        k = args[0] if args else kw["k"]
+        key = ("kw" if kw else "pos", k, type(k) if self.typed else None)
+        now = self.clock()
+        if self.maxsize != 0 and key in self.d:
+            val, exp = self.d[key]
+            if now < exp:
+                self.d.move_to_end(key)
+                return val
+            del self.d[key]
+        self.counter[0] += 1
+        if self.plan["fail"]:
+            raise Fail(k)
+        val = (k, type(k).__name__, self.counter[0])
+        if self.maxsize == 0:
+            return val
+        if self.maxsize is not None:
+            while len(self.d) >= self.maxsize:
+                self.d.popitem(last=False)
+        self.d[key] = (val, now + self.ttl)
+        return val
 
 
 class SeqRun:
@@ -87,7 +128,9 @@ class SeqRun:
         ns = [0]
         plan = {}
 
-        @lru_cache(maxsize=c["maxsize"], typed=c["typed"], always_checkpoint=c["always_checkpoint"])
+        ttl = c.get("ttl")
+
+        @lru_cache(maxsize=c["maxsize"], typed=c["typed"], always_checkpoint=c["always_checkpoint"], ttl=ttl)
         async def af(k=None):
             na[0] += 1
             await sleep(0)
@@ -95,18 +138,25 @@ class SeqRun:
                 raise Fail(k)
             return (k, type(k).__name__, na[0])
 
-        @functools.lru_cache(maxsize=c["maxsize"], typed=c["typed"])
-        def sf(k=None):
-            ns[0] += 1
-            if plan["fail"]:
-                raise Fail(k)
-            return (k, type(k).__name__, ns[0])
+        if ttl is None:
+            @functools.lru_cache(maxsize=c["maxsize"], typed=c["typed"])
+            def sf(k=None):
+                ns[0] += 1
+                if plan["fail"]:
+                    raise Fail(k)
+                return (k, type(k).__name__, ns[0])
+        else:
+            sf = RefLRU(c["maxsize"], c["typed"], ttl, ns, plan, lambda: anyio.current_time())
 
         for i, op in enumerate(c["ops"]):
             if op[0] == "clear":
                 af.cache_clear()
                 sf.cache_clear()
                 self.h.rec("clear")
+            elif op[0] == "sleep":
+                await sleep(op[1])
+                self.h.rec("sleep", op[1])
+                continue
             else:
                 _, k, fails, kw = op
                 plan["fail"] = fails
@@ -122,14 +172,15 @@ class SeqRun:
                     got = ("error", repr(e))
                 self.h.rec("call", repr(k), got[0])
                 if got != exp:
-                    self.v("seq_result", f"call #{i} f({'k=' if kw else ''}{k!r}): anyio gives {got}, functools.lru_cache twin {exp}; "
-                                         f"history {c['ops'][:i + 1]}")
+                    self.v("seq_result", f"call #{i} f({'k=' if kw else ''}{k!r}): anyio gives {got}, the "
+                                         f"{'functools.lru_cache twin' if ttl is None else 'reference LRU+ttl model'} {exp}; "
+                                         f"ttl={ttl}; history {c['ops'][:i + 1]}")
                     return
             ai = af.cache_info()
             si = sf.cache_info()
             # which calls hit and which recompute is already compared through the execution counter embedded in
             # the results; of cache_info() only the number of retained results is part of the statement
-            if (ai.currsize, ai.maxsize) != (si.currsize, si.maxsize):
+            if ttl is None and (ai.currsize, ai.maxsize) != (si.currsize, si.maxsize):
                 self.v("seq_currsize", f"after op #{i} {op}: cache_info() {ai} reports a different number of retained results "
                                        f"than the functools.lru_cache twin {si}; history {c['ops'][:i + 1]}",
                        sig="C20.seq_currsize:" + ("after-failure" if any(o[0] == "call" and o[2] for o in c["ops"][:i + 1]) else "plain"))
